@@ -258,3 +258,21 @@ Print Assumptions transition_needs_two_thirds.
 Print Assumptions activation_bounded.
 Print Assumptions eviction_only_after_threshold.
 Print Assumptions one_exit_candidate_per_block.
+
+(* ---- translation tie (T): the period arithmetic that decides renewals and exits IS the code ----
+   coq/Gen/StakerTime.v is regenerated by tools/go2v on every run from builtin/staker/validation/validation.go; on in-range inputs
+   the model's current_iteration (exit scheduling, SignalExit) and is_period_end (the renewal / exit scan of Housekeep) are equal to
+   the translated Validation.CurrentIteration / Validation.IsPeriodEnd applied to the record's fields (GenProofs/StakerTimeProofs.v). *)
+From Coq Require Import ZArith.
+From Verif Require Import GenProofs.StakerTimeProofs.
+Open Scope N_scope.
+
+Theorem period_arithmetic_is_translated_code v b :
+  val_in_range v -> (b < 4294967295)%N ->
+  gen_current_iteration v b = res_Z (current_iteration v b) /\ gen_is_period_end v b = is_period_end v b.
+Proof.
+  intros Hv Hb. destruct (staker_time_translation_tie (mkC 0 0 0 0 0 0 0 0 0) (mkD 0 0 0 None 0) v b Hv Hb) as [H1 [H2 _]].
+  exact (conj H1 H2).
+Qed.
+
+Print Assumptions period_arithmetic_is_translated_code.
